@@ -188,8 +188,52 @@ def tracer(frame, event, arg):
     return None
 
 
+def op_schema_state(s, d):
+    """what a caller sees of the schema itself once build() has returned"""
+    return (s.built, s.validity, sorted(str(e.message)[:60] for e in s.all_errors))
+
+
 READ_OPS = [c10.op_errors, c10.op_is_valid, c10.op_decode_lax, c10.op_to_objects, c10.op_lazy, c10.op_component_values,
-            c10.op_decode_jsonml, c10.op_first_error_abandon, c10.op_max_depth]
+            c10.op_decode_jsonml, c10.op_first_error_abandon, c10.op_max_depth, op_schema_state]
+
+# pools of this check only -----------------------------------------------------------------------------------------
+# 7: a schema that is INVALID only for the checks made at the end of the build (illegal restriction), built in lax mode
+LAX_XSD = ('<xs:schema xmlns:xs="http://www.w3.org/2001/XMLSchema"><xs:complexType name="B"><xs:sequence><xs:element '
+           'name="a" type="xs:string"/></xs:sequence></xs:complexType><xs:complexType name="D"><xs:complexContent>'
+           '<xs:restriction base="B"><xs:sequence><xs:element name="a" type="xs:string"/><xs:element name="zz" '
+           'type="xs:string"/></xs:sequence></xs:restriction></xs:complexContent></xs:complexType>'
+           '<xs:complexType name="M"><xs:sequence><xs:element name="a" minOccurs="0"/><xs:element name="a" minOccurs="0"/>'
+           '</xs:sequence></xs:complexType><xs:element name="h" type="xs:string"/><xs:element name="m" type="xs:string" '
+           'substitutionGroup="h"/><xs:element name="r" type="B"/><xs:element name="d" type="D"/></xs:schema>')
+LAX_DOCS = ['<r><a>x</a></r>', '<d><a>x</a><zz>y</zz></d>', '<r><zz/></r>']
+# 8: XSD 1.1 type alternatives that test an INHERITED attribute: the governing type of <c> depends on the ancestor
+INH_XSD = ('<xs:schema xmlns:xs="http://www.w3.org/2001/XMLSchema"><xs:complexType name="T0"><xs:sequence/></xs:complexType>'
+           + ''.join('<xs:complexType name="T%s"><xs:complexContent><xs:extension base="T0"><xs:sequence><xs:element '
+                     'name="c%s" type="xs:int"/></xs:sequence></xs:extension></xs:complexContent></xs:complexType>' % (x, x)
+                     for x in 'abc') +
+           '<xs:element name="c" type="T0"><xs:alternative test="@lang=\'a\'" type="Ta"/><xs:alternative '
+           'test="@lang=\'b\'" type="Tb"/><xs:alternative test="not(@lang)" type="T0"/><xs:alternative type="Tc"/>'
+           '</xs:element><xs:element name="root"><xs:complexType><xs:sequence><xs:element name="g" maxOccurs="unbounded">'
+           '<xs:complexType><xs:sequence><xs:element ref="c" maxOccurs="unbounded"/></xs:sequence><xs:attribute name="lang" '
+           'inheritable="true"/></xs:complexType></xs:element></xs:sequence></xs:complexType></xs:element></xs:schema>')
+
+
+def _inh_doc(langs):
+    return '<root>%s</root>' % ''.join('<g lang="%s">%s</g>' % (l, '<c><c%s>1</c%s></c>' % (k, k) * 3) for l, k in langs)
+
+
+INH_DOCS = [_inh_doc([('a', 'a')] * 4), _inh_doc([('b', 'b')] * 4), _inh_doc([('z', 'c')] * 4),
+            _inh_doc([('a', 'a'), ('b', 'b'), ('z', 'c'), ('a', 'b')]), _inh_doc([('b', 'a'), ('a', 'a')])]
+
+
+def _pool(pool_index):
+    import functools
+    if pool_index == 7:
+        return ('lax-built schema with check-phase errors', functools.partial(xmlschema.XMLSchema10, validation='lax'),
+                LAX_XSD, LAX_DOCS)
+    if pool_index == 8:
+        return ('1.1 alternatives on inherited attributes', xmlschema.XMLSchema11, INH_XSD, INH_DOCS)
+    return c10.pools(random.Random(1))[pool_index]
 
 
 def components_id(s):
@@ -206,7 +250,7 @@ _BASE = {}
 
 def baseline(pool_index):
     if pool_index not in _BASE:
-        label, cls, src, docs = c10.pools(random.Random(1))[pool_index]
+        label, cls, src, docs = _pool(pool_index)
         s = cls(src)
         ref = {(op.__name__, i): op(s, docs[i]) for op in READ_OPS for i in range(len(docs))}
         _BASE[pool_index] = (label, cls, src, docs, ref, sig(s))
@@ -319,16 +363,16 @@ def run_schedule(pool_index, seed, nthreads, prob, plans, st, controlled=True, p
 def shards(tier, seed):
     # pool 6: identity selectors are extended at run time when xsi:type-substituted content is met (shared state
     # written DURING validation, not only during the build)
-    return [('ctl', p, k, tier, seed) for p in (0, 2, 4, 5, 6) for k in range(3)] + \
-           [('free', p, 0, tier, seed) for p in (0, 2, 4, 5, 6)] + \
-           [('pre', p, k, tier, seed) for p in (0, 2, 4, 5) for k in range(3)] + \
-           [('ctl', 6, k, tier, seed) for k in range(3, 8)]
+    return [('ctl', p, k, tier, seed) for p in (0, 2, 4, 5, 6, 7, 8) for k in range(3)] + \
+           [('free', p, 0, tier, seed) for p in (0, 2, 4, 5, 6, 8)] + \
+           [('pre', p, k, tier, seed) for p in (0, 2, 4, 5, 7) for k in range(3)] + \
+           [('ctl', p, k, tier, seed) for p in (6, 8) for k in range(3, 8)]
 
 
 def full_plan(pool_index):
     """errors and lax decoding of every document of the pool."""
     n = len(baseline(pool_index)[3])
-    return [(0, i) for i in range(n)] + [(2, i) for i in range(n)]
+    return [(len(READ_OPS) - 1, 0)] + [(0, i) for i in range(n)] + [(2, i) for i in range(n)]
 
 
 def count_shallow(pool_index, depth):
